@@ -45,6 +45,9 @@ def op_like(ctx, name, cls, **kw):
         obj = L.Likelihood(kw['data_file'], kw['data_file'], kw['run_name'], data_dir=dd, fn_set=kw.get('fn_set', 'core_maths'))
     else:
         raise ValueError(cls)
+    for k, v in (kw.get('attrs') or {}).items():
+        # user-configurable attributes of the likelihood object (prefixes of the function-prior / combine / final files)
+        setattr(obj, k, v)
     LIKES[name] = obj
 
 
@@ -243,6 +246,29 @@ def op_victim(ctx, n=2):
     ctx.report['victim'] = log
 
 
+def op_rewrite_prior(ctx, runname, compl, prefix='aifeyn_', mode='reverse'):
+    """Harness op (not ESR code): between two barriers rank 0 replaces the function-prior file of a library by one with the
+    same number of entries and other values - what regenerating a library with reordered operator lists, or re-training a
+    user prior, does to that file between two runs."""
+    ctx.comm.Barrier()
+    if ctx.rank == 0:
+        on = ctx.fs_state['on']
+        ctx.fs_state['on'] = False
+        try:
+            p = ctx.scratch + '/pkg/esr/function_library/%s/compl_%d/%s%d.txt' % (runname, compl, prefix, compl)
+            with open(p) as f:
+                vals = f.read().split()
+            if mode == 'reverse':
+                vals = vals[::-1]
+            else:
+                vals = [repr(float(v) + 0.75 * ((i * 7) % 5)) for i, v in enumerate(vals)]
+            with open(p, 'w') as f:
+                f.write(''.join(v + '\n' for v in vals))
+        finally:
+            ctx.fs_state['on'] = on
+    ctx.comm.Barrier()
+
+
 def op_barrier(ctx):
     ctx.comm.Barrier()
 
@@ -254,7 +280,7 @@ def op_check_results(ctx, runname, compl, **kw):
 
 
 OPS = dict(gen=op_gen, npseed=op_npseed, like=op_like, fit=op_fit, load_subs=op_load_subs,
-           slices=op_slices, simp_inv=op_simp_inv, subs_templates=op_subs_templates, snapshot=op_snapshot, victim=op_victim, barrier=op_barrier, check_results=op_check_results)
+           slices=op_slices, simp_inv=op_simp_inv, subs_templates=op_subs_templates, snapshot=op_snapshot, victim=op_victim, rewrite_prior=op_rewrite_prior, barrier=op_barrier, check_results=op_check_results)
 
 
 def run_program(program, rank, size, scratch, report, comm, fs_state=None, op_plans=None):
